@@ -8,7 +8,7 @@ out="$(mktemp -d)"
 trap 'rm -rf "$out"' EXIT
 unset STATIC_FRAME_VERIF
 # keep hypothesis from recording new failing examples into /repo/.hypothesis (it would make random finds permanent)
-cp -r "$repo/.hypothesis" "$out/hyp" 2>/dev/null; export HYPOTHESIS_STORAGE_DIRECTORY="$out/hyp"
+cp -r "$repo/.hypothesis" "$out/hyp" 2>/dev/null || cp -r /repo/.hypothesis "$out/hyp" 2>/dev/null; export HYPOTHESIS_STORAGE_DIRECTORY="$out/hyp"
 cd "$repo" && /venv/bin/python -m pytest -q -p no:cacheprovider --timeout=900 --continue-on-collection-errors -n 12 --junitxml="$out/r.xml" "${sel[@]}" >"$out/log" 2>&1
 /venv/bin/python - "$out/r.xml" "${sel[@]}" <<'PY'
 import json, sys, xml.etree.ElementTree as ET
